@@ -41,8 +41,12 @@ WithChain(t, n) ==
       t2 == AddNode(t1, b, a, "", 131072, NIL, NIL)
   IN  SetBr(t2, n, b, t.len[n], t.sup[n], t.pv[n])
 
+\* (every function of the record is evaluated eagerly: TLC cannot write a lazily evaluated function value of an initial
+\* state to its disk queue -- StatePoolWriter fails with "fcnRcd is null" as soon as the queue spills)
+Eager(t) == [nodes |-> t.nodes, root |-> t.root, par |-> TLCEval(t.par), nm |-> TLCEval(t.nm),
+             len |-> TLCEval(t.len), sup |-> TLCEval(t.sup), pv |-> TLCEval(t.pv)]
 InitTrees == TreesOf(MinTips, MaxTips, Pats)
-             \cup (IF Chains THEN UNION {{WithChain(t, n) : n \in t.nodes \ {t.root}} : t \in TreesOf(MinTips, MaxTips, Pats)} ELSE {})
+             \cup (IF Chains THEN UNION {{Eager(WithChain(t, n)) : n \in t.nodes \ {t.root}} : t \in TreesOf(MinTips, MaxTips, Pats)} ELSE {})
 
 -----------------------------------------------------------------------------
 (* all calls enabled on a tree, with all argument choices                   *)
@@ -110,7 +114,7 @@ Step(ev) ==
   IN  /\ r.ok
       /\ (Emit => PrintT("CASE|" \o ToJson([pre |-> TreeJson(m), op |-> ev.op, args |-> ev.args, depth |-> depth])))
       /\ \E t \in r.res :
-           /\ m' = t
+           /\ m' = Eager(t)
            \* judged like a recorded step: only between two trees of the domain (>= 2 tips, root with >= 2 children)
            /\ mfail' = IF InDomain(MView(m)) /\ InDomain(MView(t))
                        THEN {ev.op \o "." \o f : f \in Judge(ev, MView(m), MView(t))} ELSE {}
